@@ -112,6 +112,24 @@ def frP : Params := ⟨Gen.fr_MODULUS, 4, Gen.fr_R, Gen.fr_R2, Gen.fr_INV⟩
 
 def Params.W (P : Params) : Nat := 2 ^ (64 * P.limbs)
 
+/-! ### `Field::random`: rejection sampling (the RNG is a state-passing function, new state first) -/
+
+/-- `n` words from the RNG, the first one is limb 0 -/
+def drawLimbs {Rng : Type} (nextU64 : Rng → Rng × Nat) : Nat → Rng → Rng × List Nat
+  | 0, rng => (rng, [])
+  | n + 1, rng =>
+    ((drawLimbs nextU64 n (nextU64 rng).1).1, (nextU64 rng).2 :: (drawLimbs nextU64 n (nextU64 rng).1).2)
+
+/-- draw `n` words, keep the low `bits` bits of the top limb, accept the candidate iff its VALUE is below `p`,
+    else try again from the new RNG state; at most `fuel` attempts (`none` = all rejected).  The result is
+    the raw limb list stored in the field element (taken as a Montgomery residue as it is). -/
+def randomSpec {Rng : Type} (nextU64 : Rng → Rng × Nat) (n bits p : Nat) : Nat → Rng → Option (Rng × List Nat)
+  | 0, _ => none
+  | fuel + 1, rng =>
+    let d := drawLimbs nextU64 n rng
+    let c := d.2.set (n - 1) (d.2.getD (n - 1) 0 % 2 ^ bits)
+    if limbsToNat c < p then some (d.1, c) else randomSpec nextU64 n bits p fuel d.1
+
 /-- `reduce`: `if !is_valid() { sub_noborrow(MODULUS) }` -/
 def reduce (P : Params) (a : Nat) : Nat := if a < P.p then a else (a + P.W - P.p) % P.W
 
